@@ -365,7 +365,8 @@ def check(prop, tier, seed, replay):
         if f["class"] in seen_classes or len(seen_classes) >= 8:
             continue
         seen_classes.add(f["class"])
-        rp = write_replay(prop, "fail-%s" % re.sub(r"[^A-Za-z0-9_.-]", "_", str(f["case"]))[:60],
+        rp = write_replay(prop, "fail-%s-%s" % (re.sub(r"[^A-Za-z0-9_.-]", "_", str(f["case"]))[:50],
+                                                re.sub(r"[^A-Za-z0-9_.-]", "_", str(f["class"]).split("/", 1)[-1])[:40]),
                           {"property": prop, "case": f["case"], "class": f["class"], "what": f["what"],
                            "replay": f.get("replay"),
                            "replay_cmd": "./check %s --replay <this file>" % prop})
